@@ -1184,7 +1184,7 @@ pub fn run(opts: &Opts) {
     let default_hook = std::panic::take_hook();
     std::panic::set_hook(Box::new(move |info| {
         let msg = info.to_string();
-        if std::env::var("VERIF_SHOW_PANIC").is_err() && msg.contains("attempt to") || msg.contains("denominator == 0") || msg.contains("header exist") || msg.contains("block exist") {
+        if std::env::var("VERIF_SHOW_PANIC").is_err() && msg.contains("attempt to") || msg.contains("denominator == 0") || msg.contains("header exist") || msg.contains("block exist") || msg.contains("resolve in builder store") {
             return;
         }
         default_hook(info);
